@@ -186,6 +186,7 @@ class _InMemoryResult(Result):
     self._best_trial = None
     self._latest_trial_per_group = {}
     self._lock = threading.Lock()
+    self._feedback_lock = threading.Lock()
 
   def create_trial(
       self, dna_fn: Callable[[], geno.DNA], group_id: str) -> Trial:
@@ -382,7 +383,11 @@ class _InMemoryBackend(backend.Backend):
     """Feedback callback for a trial."""
     reward = trial.get_reward_for_feedback(self._metrics_to_optimize)
     if reward is not None:
-      self._algorithm.feedback(dna, reward)
+      # NOTE: the algorithm is shared by the workers of the study and its
+      # `feedback` is not thread-safe (e.g. `num_feedbacks` is updated with a
+      # non-atomic increment), thus feedbacks are serialized.
+      with self._study._feedback_lock:  # pylint: disable=protected-access
+        self._algorithm.feedback(dna, reward)
 
   def _should_stop_early(self, trial: Trial) -> bool:
     if self._early_stopping_policy is not None:
